@@ -44,11 +44,15 @@ PLAN = dict(
          "reference decryption) - opened from the arena by that identity's key object (six decrypt entry points, ONE DecrypterOptsWithUID "
          "object), a second message of the same length through the same message and ciphertext buffers, the key object's previous ciphertext "
          "written over the current one, and refused by the previous identity's key object after the uid buffer went back. bufkex: twelve "
-         "sequential key exchanges (all ordered pairs of four identities) on long-lived user keys, each party's uids and received RA / RB / "
-         "SB / SA in its own reused arena, with and without confirmation / Destroy, every session equal to the reference for ITS identities "
-         "and messages. (The unchanged library's exchange OBJECT keeps the caller's uid / RA slices and hands out its own RA / RB slice, and "
-         "its block-mode options append the padding in the caller's spare capacity behind the plaintext: four probe sessions and a precise "
-         "matcher COUNT this as observed_* events, it is not judged.) options (rarely used API found with tools/cover.py): master scalars "
+         "sequential key exchanges (all ordered pairs of four identities) on long-lived user keys, with and without confirmation / Destroy, "
+         "with the full arena discipline at every step because the exchange object outlives its calls: the uid buffers given to "
+         "NewKeyExchange are overwritten as soon as the constructor returned and after every step, each party reads every received message "
+         "into its ONE receive buffer (the responder SA over RA, the initiator RB||SB) which is overwritten again after the step, every "
+         "returned slice (RA, RB, SB, SA, keys) is overwritten before the next step of either party; every session must complete, both "
+         "confirmations accepted, with the reference key, SB and SA for ITS identities and messages (no tolerance). (The block-mode option "
+         "objects append the padding in the caller's spare capacity behind the plaintext; no property demands otherwise: a precise matcher "
+         "COUNTS this as an observed_* event, any other write into the arena is a violation.) options (rarely used API found with "
+         "tools/cover.py): master scalars "
          "scripted to N - H1(ID||hid), the one identity per master key without a user key - GenerateUserKey refuses it twice (both key types) "
          "and goes on serving other identities, signatures do not verify under it (its public key is the point at infinity); option objects "
          "built with the public constructors for AES-128/192/256 (crypto/aes) and SM4 x PKCS#7 / ANSI X9.23 / ISO 9797-1 M2 padding x four "
